@@ -57,6 +57,8 @@ func c16Extra(p *Program, r *Report) {
 	}
 	c16Blocking(p, r, m)
 	c16UnwrapBeforeChanTest(p, r, m)
+	r.Explain("R10 make(chan T, n) builds the channel with the node's own size operand as its buffer, without one it is unbuffered, and a size is refused only when it is negative (0 is the unbuffered channel, as in Go).")
+	c10MakeRule(p, r, m, buildTypeSummaries(m), "C16.R10", true)
 	// R5
 	n := 0
 	for _, s := range m.selectSites() {
